@@ -1,5 +1,120 @@
-// stub: check for C18 not built yet
+use c18::tree::{Carry, Case, Form, Header, Item, Node, PushVia};
+use vcore::proptest::prelude::*;
+use vcore::Level;
+
+const RULE: &str = "a case is a program as data: a span tree (<=20 span nodes, depth <=5; forms: attribute on sync/async fn, new_span! with Frame::call / enter / in_future, guard: parameter) with emit! events, Traceparent::current()/SpanCtxt::current checks and yields, plus pushed incoming headers (unparsable -> documented fallback, valid sampled/unsampled of another trace, same trace id as the active one, all-zero, half-zero; through Traceparent::push, push(traceparent, tracestate) or header text), next-service hops (format current header, parse and push it on a fresh thread, run child spans there), same-service thread hops (carrying nothing / Frame::current(rt.ctxt()) / Traceparent::current().push() / both; by call or in_future) and joins of async tasks with a generated poll schedule; the sampler is a generated decision table indexed by call number that records its argument; the filter is TraceparentFilter optionally AND in_sampled_trace_filter(b). Run on a private runtime on a fresh thread and judged against a model of the active traceparent. Non-trivial = at least two root spans whose sampler decisions differ, or a pushed incoming header, or a (thread or service) hop.";
+
+const ASSUMPTIONS: [&str; 8] = [
+    "ids of sampled spans are read from their own span events; the order of sampler calls is read from the log positions of span starts (never predicted); ids inside unsampled traces are learned from the first observation inside the span and must then stay stable and be restored",
+    "a root span is one that starts while no VALID traceparent (trace id and span id both present) is active; an all-zero pushed header counts as none (W3C; crate test traceparent_ctxt_ignores_invalid_parent)",
+    "with in_sampled_trace_filter(b) the start of a NEW trace is itself an event outside any trace, so the conjunction answers b for it (rustdoc of in_sampled_trace_filter): the sampler is still consulted exactly once (it is the left operand) and the trace is sampled iff decision AND b",
+    "left open and counted as don't-care: what the sampled-trace filter answers while an INVALID header is active (events and new roots there; the effective decision of such a root is read from the first observation inside it), which ids an event shows inside an unsampled trace without the sampled-trace filter, whether a half-zero header's single id is reused by the root span below it",
+    "without the sampled-trace filter, events inside unsampled traces are still emitted (rustdoc of setup_with_sampler)",
+    "inside an unsampled span the current traceparent must be valid (so the decision can travel to the next service, book: `must propagate that decision`) and keep the trace id of the enclosing unsampled trace",
+    "spans disabled for reasons other than sampling are not generated (DESIGN Limits); the sampler argument of a root is required to be that root's (trace id, no parent, span id)",
+    "SpanCtxt::current().span_parent under a pushed header follows `push keeps the parent only within the same trace`",
+];
+
+fn form() -> impl Strategy<Value = Form> {
+    prop_oneof![
+        3 => Just(Form::SyncFn),
+        1 => Just(Form::ManualCall),
+        1 => Just(Form::ManualEnter),
+        1 => Just(Form::GuardSync),
+        3 => Just(Form::AsyncFn),
+        1 => Just(Form::ManualFuture),
+        1 => Just(Form::GuardAsync),
+    ]
+}
+
+fn leaf() -> impl Strategy<Value = Item> {
+    prop_oneof![3 => Just(Item::Event), 3 => Just(Item::Check), 2 => Just(Item::Yield)]
+}
+
+fn flags() -> impl Strategy<Value = u8> {
+    prop_oneof![5 => Just(0u8), 5 => Just(1u8), 1 => Just(2u8), 1 => Just(3u8), 1 => Just(0xfeu8), 1 => Just(0xffu8)]
+}
+
+fn ids() -> impl Strategy<Value = ((u64, u64), u64)> {
+    let trace = prop_oneof![4 => (any::<u64>(), any::<u64>()), 1 => (Just(0u64), 1u64..4), 1 => Just((u64::MAX, u64::MAX))];
+    let span = prop_oneof![4 => any::<u64>(), 1 => 1u64..4, 1 => Just(u64::MAX)];
+    (trace, span)
+}
+
+fn header() -> impl Strategy<Value = Header> {
+    prop_oneof![
+        1 => Just(Header::Unparsable),
+        6 => (ids(), flags()).prop_map(|((trace, span), flags)| Header::Valid { trace, span, flags }),
+        2 => (ids(), flags()).prop_map(|((trace, span), flags)| Header::SameTrace { trace, span, flags }),
+        2 => flags().prop_map(|flags| Header::Zero { flags }),
+        1 => (ids(), any::<bool>(), flags()).prop_map(|((trace, span), keep_trace, flags)| Header::Half { trace: keep_trace.then_some(trace), span, flags }),
+    ]
+}
+
+fn body(depth_left: u32) -> BoxedStrategy<Vec<Item>> {
+    if depth_left == 0 {
+        return prop::collection::vec(leaf(), 0..3).boxed();
+    }
+    let inner = body(depth_left - 1);
+    let item = prop_oneof![
+        6 => leaf(),
+        9 => (form(), inner.clone()).prop_map(|(form, items)| Item::Span(Node { form, items })),
+        3 => (header(), prop_oneof![Just(PushVia::Method), Just(PushVia::Function), Just(PushVia::Text)], inner.clone()).prop_map(|(header, via, items)| Item::Push { header, via, items }),
+        1 => inner.clone().prop_map(|items| Item::Service { items }),
+        1 => (prop_oneof![1 => Just(Carry::Nothing), 2 => Just(Carry::FrameCurrent), 2 => Just(Carry::TraceparentPush), 1 => Just(Carry::Both)], any::<bool>(), inner.clone())
+            .prop_map(|(carry, fut, items)| Item::Hop { carry, fut, items }),
+        1 => (any::<bool>(), prop::collection::vec(inner, 1..4), prop::collection::vec(0u8..6, 0..10)).prop_map(|(carry, tasks, schedule)| Item::Join { carry, tasks, schedule }),
+    ];
+    prop::collection::vec(item, 0..4).boxed()
+}
+
+/// Constructive bound on the number of span nodes and their nesting.
+fn limit(items: &mut Vec<Item>, budget: &mut usize, depth: usize) {
+    for it in items.iter_mut() {
+        match it {
+            Item::Span(n) => {
+                if *budget == 0 || depth >= 5 {
+                    *it = Item::Event;
+                } else {
+                    *budget -= 1;
+                    limit(&mut n.items, budget, depth + 1);
+                }
+            }
+            Item::Push { items, .. } | Item::Service { items } | Item::Hop { items, .. } => limit(items, budget, depth),
+            Item::Join { tasks, .. } => {
+                for t in tasks {
+                    limit(t, budget, depth)
+                }
+            }
+            _ => {}
+        }
+    }
+}
+
+fn case() -> impl Strategy<Value = Case> {
+    (
+        prop::collection::vec(any::<bool>(), 0..8),
+        any::<bool>(),
+        prop_oneof![3 => Just(None), 2 => Just(Some(true)), 1 => Just(Some(false))],
+        any::<u64>(),
+        body(7),
+    )
+        .prop_map(|(sampler, sampler_default, in_sampled, rng, mut items)| {
+            let mut budget = 20;
+            limit(&mut items, &mut budget, 0);
+            Case { sampler, sampler_default, in_sampled, rng, items }
+        })
+}
+
 fn main() {
-    eprintln!("C18: check not built yet");
-    std::process::exit(2);
+    vcore::run("C18", Level::Exploration, RULE, &ASSUMPTIONS, |s| {
+        // DESIGN: >= 15 % / 8 % / 8 % of the cases; the minima are ~1 % of the quick tier
+        s.require("unsampled-root-with-descendants", 200);
+        s.require("incoming-unsampled", 200);
+        s.require("invalid-or-mismatched-header", 200);
+        s.require("roots-with-differing-decisions", 200);
+        s.require("next-service-with-spans", 100);
+        s.require("thread-hop-carried", 100);
+        s.gen("programs", s.n(20_000, 600_000), case, c18::check_case);
+    })
 }
